@@ -695,6 +695,25 @@ def main(tier):
             traces.append(r["events"])
             trace_owner.append(((r["variant"], None, r["op"]), r))
 
+    # ---- the binding is demonstrated before it is trusted: a fault-free trace with one field corrupted, one event
+    # removed, or two stops swapped must be REJECTED by LifecycleTrace.tla
+    base = next((t for t in traces if ["stop", 3] in t and any(e[0] == "override" for e in t)), None)
+    if base is None:
+        raise MachineryError("no reference trace with overrides and nested stops to test the binding with")
+    iv = next(i for i, e in enumerate(base) if e[0] == "val" and i > 6)
+    io = next(i for i, e in enumerate(base) if e[0] == "override")
+    i3 = base.index(["stop", 3])
+    corrupted = [
+        base[:iv] + [base[iv][:3] + [base[iv][3] + 1]] + base[iv + 1:],          # a read-back with another value
+        base[:io] + base[io + 1:],                                                 # an override statement not recorded
+        base[:i3] + [base[i3 + 1], base[i3]] + base[i3 + 2:] if base[i3 + 1][0] == "stop" else base[:i3] + base[i3 + 1:],
+        [e for e in base if e[0] != "unproxy"],                                    # the proxies never dropped
+    ]
+    cv = validate_traces(ck, corrupted, "FALSE", "FALSE")
+    ck.cov["binding_selftest"] = {"corrupted_traces": len(corrupted), "rejected": sum(1 for ok, _x in cv if not ok)}
+    if any(ok for ok, _x in cv):
+        raise MachineryError(f"LifecycleTrace.tla accepts a corrupted trace: {[ok for ok, _x in cv]} (vacuous binding)")
+
     # ---- trace validation against Lifecycle.tla (ideal), then against the named deviations
     verdicts = validate_traces(ck, traces, "FALSE", "FALSE")
     rejected = [i for i, (ok, _x) in enumerate(verdicts) if not ok]
